@@ -4,7 +4,7 @@
 
 use super::fmt::{flat_join, join, Span, TokenFmt};
 use super::{DocString, NumberParts};
-use crate::ast::{Expr, Precedence, UnaryOpType};
+use crate::ast::{BinOpType, Expr, Precedence, UnaryOpType};
 use crate::output::Digits;
 use chrono::{DateTime, TimeZone};
 use serde_derive::Serialize;
@@ -225,7 +225,13 @@ impl ExprReply {
                     }
                     recurse(&binop.left, parts, succ);
                     literal!(binop.op.symbol());
-                    recurse(&binop.right, parts, op_prec);
+                    // See the Display impl of Expr.
+                    let right_prec = if binop.op == BinOpType::Pow {
+                        op_prec
+                    } else {
+                        succ
+                    };
+                    recurse(&binop.right, parts, right_prec);
                     if prec < op_prec {
                         literal!(")");
                     }
@@ -258,7 +264,7 @@ impl ExprReply {
                         literal!("(");
                     }
                     let mut sub = vec![];
-                    recurse(expr, &mut sub, Precedence::Div);
+                    recurse(expr, &mut sub, Precedence::Mul);
                     parts.push(ExprParts::Property {
                         property: property.to_owned(),
                         subject: sub,
